@@ -5,10 +5,31 @@ open BinNums
 open Base
 open C04AsmModel
 open C03Model
+open C04Model
 
 let b01 b = if b then "1" else "0"
 let cls_of (r : 'a res) : string =
   match r with Ok _ -> "ok" | Err -> "err" | Panic -> "panic" | OutOfFuel -> "hang"
+
+(* ---- box trees (B and L lines) *)
+let name_hex (l : coq_N list) : string =
+  S.concat "" (L.map (fun x -> Printf.sprintf "%02x" (int_of_n x)) l)
+let dec_of_n (n : coq_N) : string = Printf.sprintf "%Lu" (Int64.of_string ("0x" ^ hex_of_n n))
+let rec dump (t : tree) : string =
+  match t with
+  | Leaf (nm, sz) -> name_hex nm ^ ":" ^ dec_of_n sz
+  | Node (nm, kids) -> name_hex nm ^ ":" ^ dec_of_n (tsize t) ^ "{" ^ S.concat "," (L.map dump kids) ^ "}"
+(* top-level boxes of a file: name:Size(), with the start position (sum of the preceding Size() values) for mdat and moof *)
+let top_obs (ts : tree list) : string =
+  let rec go pos = function
+    | [] -> []
+    | t :: r ->
+      let nm = name_hex (tname t) in
+      let sz = Int64.of_string ("0x" ^ hex_of_n (tsize t)) in
+      let at = if nm = "6d646174" || nm = "6d6f6f66" then Printf.sprintf "@%Lu" pos else "" in
+      (Printf.sprintf "%s:%Lu%s" nm sz at) :: go (Int64.add pos sz) r in
+  S.concat "," (go 0L ts)
+let n_mdat (ts : tree list) : int = L.length (L.filter (fun t -> name_hex (tname t) = "6d646174") ts)
 
 (* ---- shapes *)
 let parse_traf (s : string) : trafshape =
@@ -110,6 +131,30 @@ let () =
         let r = if cfg.[0] = 'S' then decode_file_sr o sh else decode_file_r o sh in
         let m = match r with Ok f -> "dec=ok|" ^ file_obs f | r -> "dec=" ^ cls_of r in
         if m = obs then Printf.printf "OK %s\n" id else Printf.printf "MISMATCH %s decode-loop model=%s\n" id m
+      | ["B"; id; hex; o1; o2] ->
+        let bs = bytes_of_hex hex in
+        let m1 =
+          match box_r std_leaves bs with
+          | (Ok BEof, _) -> "eof"
+          | (Ok (BBox t), s) -> Printf.sprintf "ok:%s:%d" (dump t) (int_of_n (ipos s))
+          | (r, _) -> cls_of r in
+        let m2 =
+          match box_sr std_leaves bs with
+          | (Ok t, s) -> Printf.sprintf "ok:%s:%d:%s" (dump t) (int_of_z (rpos (sr s))) (b01 (rerr (sr s)))
+          | (r, _) -> cls_of r in
+        if m1 = o1 && m2 = o2 then Printf.printf "OK %s\n" id
+        else Printf.printf "MISMATCH %s box model_r=%s model_sr=%s\n" id m1 m2
+      | ["L"; id; hex; o1; o2] ->
+        let bs = bytes_of_hex hex in
+        (* the byte-level loops deliver the box sequence; the one assembly rule that can reject a sequence of these leaves
+           (two non-empty mdat boxes in a progressive file) is not part of this model: such a rejection is not compared *)
+        let one r o = match r with
+          | Ok ts -> let m = "ok:" ^ top_obs ts in if m = o || (o = "err" && n_mdat ts >= 2) then None else Some m
+          | r -> let m = cls_of r in if m = o then None else Some m in
+        (match one (fst (file_r std_leaves bs)) o1, one (fst (file_sr std_leaves bs)) o2 with
+         | None, None -> Printf.printf "OK %s\n" id
+         | a, b -> Printf.printf "MISMATCH %s file-boxes model_r=%s model_sr=%s\n" id
+                     (match a with None -> "same" | Some m -> m) (match b with None -> "same" | Some m -> m))
       | ["E"; id; _cfg; _name; st; ow; osw] ->
         let f = parse_file st in
         let mw = enc_string (file_enc_w f) and msw = enc_string (file_enc_sw true f) in
